@@ -22,7 +22,8 @@ func propConfigs() map[string]*PropConfig {
 	add(&PropConfig{ID: "T00", Prefix: "VH_T00_", Sets: []HarnessSet{hfiles("fast", "selftest/t00.go")},
 		Explain: "engine self-test"})
 	fastLib := "fast/lib_fast.go"
-	add(&PropConfig{ID: "C01", Prefix: "VH_C01_", Sets: []HarnessSet{hfiles("fast", fastLib, "fast/c01_binary_gen.go")},
+	add(&PropConfig{ID: "C01", Prefix: "VH_C01_", Sets: []HarnessSet{hfiles("fast", fastLib, "fast/c01_binary_gen.go", "fast/c01_more_gen.go")},
+		Thorough: func(n string) bool { return strings.Contains(n, "_T_") },
 		Explain: "pattern B: the real Comp.BinaryExpr1/UnaryExpr/Symbol.expr compile functions are executed on symbolic operands per (operator, kind, constness shape); the returned closure is run and compared with the native Go operator"})
 	return m
 }
